@@ -341,7 +341,14 @@ func famRawSrv(w *World, c *Case, rng *rand.Rand) {
 				}
 			case expect == "rexhausted":
 				w.Stat("rawsrv_expect_rexhausted", 1)
-				if vt.Code != codes.ResourceExhausted {
+				// An Invoke reads while the burst arrives: if it keeps up, its window is restored
+				// between frames and the burst is no overrun from the receiver's point of view.
+				// Only a consumer that is verifiably not reading (the streaming shapes wait for
+				// "read") makes ResourceExhausted the one legal outcome.
+				keptUp := shape == "Unary" && vt.K == "invoke" && vt.Err == "" && vt.GotOK && vt.GotSize == 200000
+				if keptUp {
+					w.Stat("rawsrv_overrun_consumer_kept_up", 1)
+				} else if vt.Code != codes.ResourceExhausted {
 					w.Violate("C06", "overrun-not-resource-exhausted", "raw server overran the caller's window on a %s call: terminal result %q, want ResourceExhausted", shape, vt.Err)
 				}
 			case len(expect) > 5 && expect[:5] == "code:":
